@@ -119,6 +119,9 @@ CLAIMED.update({
                  'model reads it back to the graph that text denotes (C07_tree_roundtrip = mutual induction writeGraph_tree / '
                  'loop_T / loop_K + C04_read_tree); the graph built from any tree provably holds those tables (graphOfTree_emb, '
                  'by a mutual induction over key ranges), so the statement is closed: C07_tree_text, C07_tree_roundtrip_closed; '
+                 'the denotation of the text is the tree\'s own graph (treeGraph_tree, mutual induction over the reader\'s '
+                 'branch stack), so write-then-read returns the graph with the same keys and the same bonds and orders '
+                 '(C07_tree_identity, C07_tree_same_keys, C07_tree_same_bonds); '
                  'also for every path graph (any length, all names, all orders 0-4): the writer model '
                  'produces exactly the chain string and the reader model reads it back to the same graph (C07_path_roundtrip = '
                  'writeGraph_path + C04_read_chain); writer and reader symbol tables are mutually inverse on orders 0-4, single '
